@@ -158,6 +158,122 @@ def fnum_(x):
     return repr(float(x))
 
 
+KSIZES = [(w, h) for w in (1, 2, 3, 4, 5, 7, 16) for h in (1, 2, 3, 4, 5, 7, 16)] + [(60, 20), (20, 60), (120, 1), (1, 120)]
+LIGHTS = ['<feDistantLight azimuth="%s" elevation="%s"/>', '<fePointLight x="%s" y="%s" z="10"/>',
+          '<feSpotLight x="%s" y="%s" z="15" pointsAtX="3" pointsAtY="-2" pointsAtZ="0" specularExponent="4" limitingConeAngle="40"/>']
+
+
+def kernel_prims(rng, full=False):
+    """filter primitives with adversarial but in-domain parameters (every one is accepted by usvg)"""
+    P = []
+    for sd in ['0.06', '0.5', '1.9', '2', '5', '40', '1000', '3 0', '0 7', '0.3 25']:
+        P.append('<feGaussianBlur stdDeviation="%s"/>' % sd)
+    P += ['<feColorMatrix type="matrix" values="%s"/>' % ' '.join(fnum_(rng.uniform(-2, 2)) for _ in range(20)),
+          '<feColorMatrix type="saturate" values="0.3"/>', '<feColorMatrix type="hueRotate" values="77"/>', '<feColorMatrix type="luminanceToAlpha"/>']
+    P += ['<feComponentTransfer><feFuncR type="table" tableValues="1 0 0.5 2 -1"/><feFuncA type="discrete" tableValues="0 1 0.3"/></feComponentTransfer>',
+          '<feComponentTransfer><feFuncG type="linear" slope="-3" intercept="2"/><feFuncB type="gamma" amplitude="2" exponent="0.1" offset="-0.5"/></feComponentTransfer>',
+          '<feComponentTransfer><feFuncR type="table" tableValues="0.7"/><feFuncG type="discrete" tableValues=""/></feComponentTransfer>']
+    for ks in ['0 1 1 0', '1 0 0 0', '2 -1 0.5 0.3', '-1 -1 -1 2', '0 0 0 1', '100 100 100 -100']:
+        k = ks.split()
+        P.append('<feComposite operator="arithmetic" in2="SourceGraphic" k1="%s" k2="%s" k3="%s" k4="%s"/>' % tuple(k))
+    conv = []
+    for ox in range(1, 10):
+        for oy in ([ox] if not full else [1, ox, 9]):
+            for tx in sorted(set([0, ox // 2, ox - 1])):
+                for ty in sorted(set([0, oy // 2, oy - 1])):
+                    for em in ('duplicate', 'wrap', 'none'):
+                        conv.append('<feConvolveMatrix order="%d %d" targetX="%d" targetY="%d" edgeMode="%s" preserveAlpha="%s" divisor="%s" bias="%s" kernelMatrix="%s"/>'
+                                    % (ox, oy, tx, ty, em, rng.choice(['true', 'false']), rng.choice(['1', '0.5', '9']), rng.choice(['0', '0.5', '-0.2']),
+                                       ' '.join(rng.choice(['1', '0', '-1', '0.25', '2']) for _ in range(ox * oy))))
+    P += conv if full else rng.sample(conv, 40)
+    for sc in ['0', '1', '8', '-8', '50', '1000', '-1000']:
+        for xc, yc in (('R', 'G'), ('A', 'B'), ('B', 'A')):
+            P.append('<feDisplacementMap in2="SourceGraphic" scale="%s" xChannelSelector="%s" yChannelSelector="%s"/>' % (sc, xc, yc))
+    for li in LIGHTS:
+        ls = li % (fnum_(rng.uniform(-50, 150)), fnum_(rng.uniform(-50, 150)))
+        for ss in ['1', '-5', '100']:
+            P.append('<feDiffuseLighting surfaceScale="%s" diffuseConstant="1.5" lighting-color="#fc8">%s</feDiffuseLighting>' % (ss, ls))
+            P.append('<feSpecularLighting surfaceScale="%s" specularConstant="2" specularExponent="%s" lighting-color="#8cf">%s</feSpecularLighting>'
+                     % (ss, rng.choice(['1', '20', '128']), ls))
+    for r in ['0.5', '1', '3', '100', '1 0.2', '0.2 40']:
+        P.append('<feMorphology operator="%s" radius="%s"/>' % (rng.choice(['erode', 'dilate']), r))
+    for bf in ['0.01', '0.5', '0.1 2', '10']:
+        for no in ['0', '1', '3', '8']:
+            P.append('<feTurbulence type="%s" baseFrequency="%s" numOctaves="%s" seed="%d" stitchTiles="%s"/>'
+                     % (rng.choice(['turbulence', 'fractalNoise']), bf, no, rng.below(100), rng.choice(['stitch', 'noStitch'])))
+    return P
+
+
+def kernel_doc(prim, w, h):
+    """a document that runs `prim` on a w x h filter image (userSpaceOnUse region w x h at the origin, canvas w x h)"""
+    return ('<svg %s width="%d" height="%d"><filter id="f" filterUnits="userSpaceOnUse" x="0" y="0" width="%d" height="%d">%s</filter>'
+            '<rect width="%d" height="%d" fill="#c84" fill-opacity="0.8" filter="url(#f)"/></svg>' % (rc.NS, w, h, w, h, prim, w, h))
+
+
+PRIM_DOCS = [
+    '<feGaussianBlur stdDeviation="%(v)s"/>', '<feOffset dx="%(v)s" dy="-%(v)s"/>', '<feFlood flood-color="#2a2"/>',
+    '<feColorMatrix type="hueRotate" values="40"/>', '<feComponentTransfer><feFuncR type="table" tableValues="1 0"/></feComponentTransfer>',
+    '<feComposite operator="arithmetic" in2="SourceGraphic" k1="0.5" k2="0.5" k3="0.5"/>', '<feComposite operator="xor" in2="SourceGraphic"/>',
+    '<feBlend mode="multiply" in2="SourceGraphic"/>',
+    '<feConvolveMatrix order="9" edgeMode="wrap" kernelMatrix="%(k81)s"/>', '<feConvolveMatrix order="3" edgeMode="duplicate" kernelMatrix="1 0 -1 2 0 -2 1 0 -1"/>',
+    '<feConvolveMatrix order="5 2" targetX="4" targetY="0" edgeMode="wrap" kernelMatrix="1 1 1 1 1 1 1 1 1 1"/>',
+    '<feDisplacementMap in2="SourceGraphic" scale="%(v)s" xChannelSelector="A" yChannelSelector="A"/>',
+    '<feFlood flood-color="white" result="m"/><feDisplacementMap in="SourceGraphic" in2="m" scale="%(v)s" xChannelSelector="R" yChannelSelector="G"/>',
+    '<feDiffuseLighting surfaceScale="5"><feDistantLight azimuth="45" elevation="30"/></feDiffuseLighting>',
+    '<feDiffuseLighting surfaceScale="2"><fePointLight x="10" y="10" z="20"/></feDiffuseLighting>',
+    '<feSpecularLighting surfaceScale="3" specularExponent="10"><feSpotLight x="50" y="50" z="30" pointsAtX="0" pointsAtY="0" pointsAtZ="0"/></feSpecularLighting>',
+    '<feMorphology operator="dilate" radius="%(v)s"/>', '<feTurbulence baseFrequency="0.05" numOctaves="2"/>', '<feTile/>',
+    '<feMerge><feMergeNode in="SourceGraphic"/><feMergeNode in="SourceAlpha"/></feMerge>', '<feDropShadow dx="2" dy="2" stdDeviation="%(v)s"/>',
+]
+
+
+def thin_filter_case(rng):
+    """(doc, W, H, ts): one primitive on tiny / thin / non-square filter images - through thin canvases, tiny root scales,
+    non-uniform root scales, or 1-3 px filter regions"""
+    prim = rng.choice(PRIM_DOCS) % dict(v=rng.choice(['1', '3', '8', '20']), k81=' '.join(['1'] * 81))
+    N = rng.choice([3, 5, 20, 50, 120])
+    W, H = rng.choice([(1, 1), (1, N), (N, 1), (2, 2), (3, 3), (2, N), (N, 2), (N, N // 3 + 1), (8, 8)])
+    mode = rng.below(4)
+    if mode == 0:      # a 200x200 document rendered as a thumbnail
+        s = rng.choice([0.01, 0.015, 0.02, 0.03])
+        t = (s, 0, 0, s, 0, 0)
+        reg = ''
+        size = 200
+    elif mode == 1:    # non-uniform root scale
+        sx, sy = rng.choice([(3, 0.5), (0.5, 3), (0.025, 0.1), (0.1, 0.025), (1, 0.02)])
+        t = (sx, 0, 0, sy, 0, 0)
+        reg = ''
+        size = rng.choice([40, 100])
+    elif mode == 2:    # a filter region 1-3 px wide / high
+        rw, rh = rng.choice([(1, 50), (2, 30), (3, 3), (30, 1), (60, 2), (2, 2), (1, 3), (3, 1), (60, 20), (20, 60)])
+        reg = 'filterUnits="userSpaceOnUse" x="%d" y="%d" width="%d" height="%d"' % (rng.below(4), rng.below(4), rw, rh)
+        t = (1, 0, 0, 1, 0, 0)
+        size = 64
+        W, H = max(W, 8), max(H, 8)
+    else:              # the canvas itself is thin
+        t = (1, 0, 0, 1, rng.choice([0, 0.37]), 0)
+        reg = 'x="0" y="0" width="1" height="1"'
+        size = max(W, H)
+    doc = ('<svg %s width="%d" height="%d"><filter id="f" %s>%s</filter><rect width="%d" height="%d" fill="#c84" fill-opacity="0.9" filter="url(#f)"/></svg>'
+           % (rc.NS, size, size, reg, prim, size, size))
+    return doc, W, H, t
+
+
+def nested_image_doc(depth, rng):
+    """SVG-in-SVG `data:` images `depth` levels deep, each inside an isolated group whose box is far larger than the canvas"""
+    import base64
+    def level(img):
+        big = rng.choice([1000, 100000])
+        grp = rng.choice(['opacity="0.5"', 'style="isolation:isolate"', 'opacity="0.9" transform="scale(%s)"' % rng.choice([1, 3, 40])])
+        return ('<svg xmlns="http://www.w3.org/2000/svg" xmlns:xlink="http://www.w3.org/1999/xlink" width="8" height="8"><g %s>'
+                '<rect x="%d" y="%d" width="%d" height="%d" fill="#2a2"/>%s</g></svg>' % (grp, -big, -big, 2 * big, 2 * big, img))
+    inner = level('')
+    for _ in range(depth):
+        href = 'data:image/svg+xml;base64,' + base64.b64encode(inner.encode()).decode()
+        inner = level('<image x="0" y="0" width="8" height="8" xlink:href="%s"/>' % href)
+    return inner
+
+
 def gen_mutant(rng, path):
     try:
         src = open(path, encoding='utf-8').read()
@@ -300,6 +416,43 @@ def run(ctx):
         for c in mcases:
             ctx.note_case("morph/%s" % (c[:5],))
 
+    # ------------------------------------------------------------------ K: every filter kernel on every small image size
+    prims = kernel_prims(rng, full=not quick)
+    kitems = []
+    for (w, h) in KSIZES:
+        for pr in (rng.sample(prims, 42) if quick else prims):
+            kitems.append((w, h, rng.below(1 << 30) + 1, rng.choice([0.02, 0.5, 1, 1, 3]), pr))
+    kouts = ctx.rvh_batch(binp, 'c02-kernel', ["%d\t%d\t%d\t%s\t%s" % it for it in kitems], chunk=40)
+    kst = dict(calls=len(kitems), ok=0, skipped=0, kinds={}, max_ms=0)
+    nkb = 0
+    for it, o in zip(kitems, kouts):
+        try:
+            r = json.loads(o)
+        except (TypeError, ValueError):
+            r = {'error': str(o)[:100]}
+        if 'skip' in r:
+            kst['skipped'] += 1
+            continue
+        if r.get('ok'):
+            kst['ok'] += 1
+            kst['kinds'][r['kind']] = kst['kinds'].get(r['kind'], 0) + 1
+            kst['max_ms'] = max(kst['max_ms'], r['ms'])
+            ctx.note_case("kernel/%dx%d/%s/%s" % (it[0], it[1], it[3], it[4][:120]))
+            if r['ms'] > 1500 or r['len'] != it[0] * it[1] or (r['kind'] in ('arithmetic', 'morphology') and r['bad_alpha'] > 0):
+                nkb += 1
+                if nkb <= 3:
+                    ctx.violation("filter kernel %s on a %dx%d image: %s" % (r['kind'], it[0], it[1], json.dumps(r)),
+                                  dict(op='c02-kernel', size=[it[0], it[1]], seed=it[2], scale=it[3], primitive=it[4], result=r, doc=kernel_doc(it[4], it[0], it[1])))
+            continue
+        nkb += 1
+        if nkb <= 3:
+            what = ("panicked: %s at %s" % (r.get('panic'), r.get('at'))) if 'panic' in r else ("did not return: %s" % str(r)[:200])
+            ctx.violation("filter kernel call on a %dx%d image %s  [%s]" % (it[0], it[1], what, it[4][:200]),
+                          dict(op='c02-kernel', size=[it[0], it[1]], seed=it[2], scale=it[3], primitive=it[4], result=r, doc=kernel_doc(it[4], it[0], it[1]),
+                               replay="rvh c02-kernel, payload '<w>\\t<h>\\t<seed>\\t<scale>\\t<primitive xml>'"))
+    ctx.cov['kernel_grid'] = kst
+    ctx.log("kernel grid: %s" % kst)
+
     # ------------------------------------------------------------------ K: layer-trace
     jobs = rc.trace_jobs_corpus(ctx, rng.sample(files, 350 if quick else len(files)), 2 if quick else 4)
     jobs += rc.trace_jobs_generated(ctx, 300 if quick else 3000)
@@ -406,8 +559,8 @@ def run(ctx):
         if 'ok' in r:
             # modelled work of HEAD's kernel: layer area x window capped by the layer (c02-classify morph_cost, the
             # harness-side evaluation of Model.Morph.morph_ops on the clamped layer); measured throughput 3e5 window
-            # cells per ms in release, so 400 ms + cost / 2e4 leaves a factor 15
-            bound = 400 + cls.get('morph_cost', 0) / 2e4
+            # cells per ms in release, so 1500 ms + cost / 1e4 leaves a factor 30 and room for a loaded machine (767 ms seen for 2.6e6 cells under a parallel build)
+            bound = 1500 + cls.get('morph_cost', 0) / 1e4
             if r['ms'] > bound and nb < 4:
                 nb += 1
                 st['over_model'] += 1
@@ -421,6 +574,21 @@ def run(ctx):
     st['ratio'] = round(st['ratio'], 3)
     stats['morphology'] = st
     ctx.log("e2e-C02 morphology: %s" % st)
+    # every primitive kind on tiny / thin / non-square filter images (thin canvases, thumbnails, non-uniform scales, 1-3 px regions)
+    titems = [thin_filter_case(rng) for _ in range(700 if quick else 7000)]
+    st = run_renders(ctx, binp, titems, "e2e-C02 thin filters", 'release')
+    stats['thin_filters'] = st
+    ctx.log("e2e-C02 thin filters (release): %s" % st)
+    if dbin is not None and len(ctx.violations) < 6:
+        st = run_renders(ctx, dbin, titems[:150 if quick else 1500], "e2e-C02 thin filters", 'debug')
+        stats['thin_filters_debug'] = st
+        ctx.log("e2e-C02 thin filters (debug): %s" % st)
+    # SVG-in-SVG data images 0..4 levels deep inside isolated groups with huge boxes, 8x8 canvas: every level's surfaces
+    # are seen by the counting allocator
+    nitems = [(nested_image_doc(d, rng), 8, 8, (1, 0, 0, 1, 0, 0)) for d in (0, 1, 1, 2, 2, 2, 3, 3, 3, 4)]
+    st = run_renders(ctx, binp, nitems, "e2e-C02 nested images", 'release')
+    stats['nested_images'] = st
+    ctx.log("e2e-C02 nested images: %s" % st)
     ctx.cov['e2e'] = stats
     ctx.cov['e2e_cases'] = sum(s['renders'] for s in stats.values())
     ctx.add_sample(dict(op='c02-render', doc='@' + files[7], canvas=[64, 64], root_transform=list(transforms(64, 64)['rotate'])))
